@@ -58,12 +58,12 @@ macro_rules! c03_zipf {
         vproof! {
             #[kani::unwind(3)]
             fn $name() {
+                let mut rng = SymRng::new(2); // all symbolic inputs are drawn first (replay alignment)
                 let n: $f = kani::any();
                 let s: $f = kani::any();
                 let d = match Zipf::<$f>::new(n, s) { Ok(d) => d, Err(_) => return };
                 // n is "the number of elements": integral values only (for fractional n the support is not documented)
                 kani::assume(n <= $maxn && s <= 100.0 && n == n.floor());
-                let mut rng = SymRng::new(2);
                 // region of known finding zipf_n1_umax: n < 2 and the first uniform draw is its maximum
                 let kf = n < 2.0 && $umax(rng.words[0]);
                 if $mode == 0 { kani::assume(!kf); } else { kani::assume(kf); }
